@@ -258,6 +258,9 @@ def verdictC04 (cfgRun cfgFb : LiveCfg) (ro : ExecObs) : Option String :=
   else if ro.res == Res.ret (some ErrV.concLimit) ∧ ro.runCalls = 0 ∧ ro.fbCalls = 0 ∧ ro.fanOk ∧
       ((runEvents ro.emits).filter fun e => e.1 == Kind.reject).length + ((fbEvents ro.emits).filter fun e => e.1 == FbKind.reject).length = 0 then
     some "a call refused for the concurrency limit recorded no rejection event"
+  -- … and on EVERY configured collector: the recorders' logs differ on a call that recorded a rejection
+  else if !ro.fanOk ∧ ((runEvents ro.emits).filter fun e => e.1 == Kind.reject).length + ((fbEvents ro.emits).filter fun e => e.1 == FbKind.reject).length > 0 then
+    some "a rejection was not recorded exactly once on every configured collector"
   else none
 
 def gateVerdict (e : SpecC16.Epoch) (g : Option (Int × Bool)) : Option String :=
